@@ -1,7 +1,9 @@
 //! C19 — `$ENV{NAME}` path expansion. Real code: `env_util::expand_env_vars` through the
 //! `verif_hooks::expand_env_vars` re-export (fast path), and its three call sites
 //! `FileAppender::builder().build`, `RollingFileAppender::builder().build` and
-//! `FixedWindowRoller::roll` (observation = which files exist afterwards).
+//! `FixedWindowRoller::roll` (observation = which files exist afterwards), each of them both through
+//! the builder API and through a configuration FILE (`load_config_file` + `Logger::new` + one record
+//! per roll): kinds `file-cfg`, `rolling-cfg`, `roller-cfg`.
 //!
 //! The process environment is controlled: at the first case every inherited variable is removed,
 //! and around each case exactly the variables the case carries are installed and removed again
@@ -15,6 +17,7 @@ use log4rs::append::rolling_file::policy::compound::{
     CompoundPolicy,
 };
 use log4rs::append::rolling_file::RollingFileAppender;
+use log4rs::config::{load_config_file, Deserializers};
 use std::path::{Path, PathBuf};
 use std::sync::atomic::{AtomicUsize, Ordering};
 use std::sync::OnceLock;
@@ -160,6 +163,48 @@ fn f7_family(rng: &mut Rng, env: &mut Vec<(String, String)>, fs: bool) -> String
     format!("${}$ENV{{{}}}{}{}", p, x, s, tail)
 }
 
+/// inputs on which a SECOND application of the expansion would change the result: a malformed outer
+/// reference wrapping a well-formed one whose value is the name of a set variable
+/// (`$ENV{$ENV{W}}`), a stray `$` directly before a reference whose value reads `ENV{Y}`, and the
+/// split forms of the latter. The env map is extended accordingly.
+fn reexpand_family(rng: &mut Rng, env: &mut Vec<(String, String)>) -> String {
+    let y = set_name(rng, env).unwrap_or_else(|| {
+        env.push(("B".to_owned(), "v".to_owned()));
+        "B".to_owned()
+    });
+    // a variable carrying exactly `want`
+    fn carrier(env: &mut Vec<(String, String)>, want: &str, not: &str) -> Option<String> {
+        if let Some(e) = env.iter().find(|e| e.1 == want && e.0 != not) {
+            return Some(e.0.clone());
+        }
+        for cand in ["W", "VP_WHICH", "C", "x", "_x", "VP_TAIL", "A0", "VP_\u{e9}"] {
+            if !env.iter().any(|e| e.0 == cand) {
+                env.push((cand.to_owned(), want.to_owned()));
+                return Some(cand.to_owned());
+            }
+        }
+        None
+    }
+    match rng.below(4) {
+        0 => match carrier(env, &y, &y) {
+            Some(w) => format!("$ENV{{$ENV{{{}}}}}", w),
+            None => "$".to_owned(),
+        },
+        1 => match carrier(env, &format!("ENV{{{}}}", y), &y) {
+            Some(t) => format!("$$ENV{{{}}}", t),
+            None => "$".to_owned(),
+        },
+        2 => match carrier(env, &format!("{}}}", y), &y) {
+            Some(t) => format!("$ENV{{$ENV{{{}}}", t),
+            None => "$".to_owned(),
+        },
+        _ => match carrier(env, &format!("NV{{{}", y), &y) {
+            Some(t) => format!("$E$ENV{{{}}}}}", t),
+            None => "$".to_owned(),
+        },
+    }
+}
+
 fn gen_env(rng: &mut Rng, max: u64, fs: bool) -> Vec<(String, String)> {
     let k = rng.range(0, max);
     let mut env: Vec<(String, String)> = Vec::new();
@@ -184,7 +229,8 @@ fn gen_path(rng: &mut Rng, env: &mut Vec<(String, String)>, max_tokens: u64, fs:
     let mut s = String::new();
     let mut last_ref: Option<String> = None;
     for _ in 0..m {
-        let t: String = match rng.below(20) {
+        let t: String = match rng.below(22) {
+            20..=21 => reexpand_family(rng, env),
             0..=2 => (if fs { *rng.pick(LIT_ASCII_FS) } else { *rng.pick(LIT_ASCII) }).to_owned(),
             3 => (*rng.pick(LIT_UNI)).to_owned(),
             4..=5 => (*rng.pick(STRAY)).to_owned(),
@@ -252,15 +298,44 @@ pub fn gen(rng: &mut Rng, n: usize, thorough: bool, emit: &mut dyn FnMut(String)
             emit(format!("hook\t{}\t{}", enc_env(&[]), enc_str(&format!("a/$ENV{{{}}}/b", n))));
         }
     }
+    // the non-idempotent inputs once for every call-site kind, deterministically
+    {
+        let env = vec![
+            ("W".to_owned(), "T".to_owned()),
+            ("T".to_owned(), "r".to_owned()),
+            ("VP_TAIL".to_owned(), "ENV{T}".to_owned()),
+        ];
+        for body in ["$ENV{$ENV{W}}", "$$ENV{VP_TAIL}", "d/$ENV{$ENV{W}}/$$ENV{VP_TAIL}"] {
+            for kind in ["file", "file-cfg", "rolling", "rolling-cfg"] {
+                emit(format!("{}\t{}\t{}", kind, enc_env(&env), enc_str(&format!("p{}q.log", body))));
+            }
+            for kind in ["roller", "roller-cfg"] {
+                emit(format!("{}\t{}\t{}\t0\t2\t3", kind, enc_env(&env), enc_str(&format!("p{}q.{{}}", body))));
+            }
+            emit(format!("hook\t{}\t{}", enc_env(&env), enc_str(body)));
+        }
+    }
     for i in 0..n {
-        // one case in 40 goes through a call site
-        let kind = if i % 40 == 39 { ["file", "rolling", "roller"][(i / 40) % 3] } else { "hook" };
+        // one case in 20 goes through a call site (builder API or configuration file)
+        const KINDS: [&str; 6] = ["file", "file-cfg", "rolling", "rolling-cfg", "roller", "roller-cfg"];
+        let kind = if i % 20 == 19 { KINDS[(i / 20) % 6] } else { "hook" };
         let fs = kind != "hook";
         let mut env = gen_env(rng, max_env, fs);
-        let body = gen_path(rng, &mut env, if fs { max_tokens.min(6) } else { max_tokens }, fs);
+        let mut body = gen_path(rng, &mut env, if fs { max_tokens.min(6) } else { max_tokens }, fs);
+        if fs && rng.chance(1, 3) {
+            // make sure every call-site kind regularly sees an input that must not be expanded twice
+            let extra = reexpand_family(rng, &mut env);
+            if rng.chance(1, 2) {
+                body.push_str(&extra);
+            } else {
+                body = format!("{}{}", extra, body);
+            }
+        }
         match kind {
             "hook" => emit(format!("hook\t{}\t{}", enc_env(&env), enc_str(&body))),
-            "file" | "rolling" => emit(format!("{}\t{}\t{}", kind, enc_env(&env), enc_str(&format!("p{}q.log", body)))),
+            "file" | "rolling" | "file-cfg" | "rolling-cfg" => {
+                emit(format!("{}\t{}\t{}", kind, enc_env(&env), enc_str(&format!("p{}q.log", body))))
+            }
             _ => {
                 let base = *rng.pick(&[0u64, 0, 1, 7]);
                 let count = rng.range(0, 3);
@@ -271,7 +346,7 @@ pub fn gen(rng: &mut Rng, n: usize, thorough: bool, emit: &mut dyn FnMut(String)
                     2 => format!("d{{}}/p{}q", body),
                     _ => format!("p{}$ENV{{A{{}}}}q.{{}}", body),
                 };
-                emit(format!("roller\t{}\t{}\t{}\t{}\t{}", enc_env(&env), enc_str(&pat), base, count, rolls));
+                emit(format!("{}\t{}\t{}\t{}\t{}\t{}", kind, enc_env(&env), enc_str(&pat), base, count, rolls));
             }
         }
     }
@@ -330,39 +405,80 @@ fn list_files(root: &Path, rel: &str, out: &mut Vec<(String, Vec<u8>)>) {
     }
 }
 
-fn in_scratch(f: impl FnOnce() -> Result<(), String> + std::panic::UnwindSafe, with_content: bool) -> String {
+#[derive(Clone, Copy, PartialEq)]
+enum Content {
+    /// only which files exist
+    None,
+    /// the bytes of every file
+    Raw,
+    /// files hold a decimal number (the record text): print that number
+    Digits,
+}
+
+/// Runs `f` with a fresh scratch directory as current directory; `f` gets the path of a (not yet
+/// existing) configuration file OUTSIDE that directory. Observation = the files found afterwards.
+fn in_scratch(f: impl FnOnce(&Path) -> Result<(), String> + std::panic::UnwindSafe, content: Content) -> String {
     let root = init();
-    let dir = root.join(format!("c19_{}_{}", std::process::id(), COUNTER.fetch_add(1, Ordering::SeqCst)));
+    let n = COUNTER.fetch_add(1, Ordering::SeqCst);
+    let dir = root.join(format!("c19_{}_{}", std::process::id(), n));
+    let cfg = root.join(format!("c19_{}_{}.yaml", std::process::id(), n));
     if std::fs::create_dir_all(&dir).is_err() || std::env::set_current_dir(&dir).is_err() {
         return "scratch-error".to_owned();
     }
-    let r = guarded(f);
+    let cfg2 = cfg.clone();
+    let r = guarded(move || f(&cfg2));
     let mut files = Vec::new();
     list_files(&dir, "", &mut files);
     let _ = std::env::set_current_dir(root);
     let _ = std::fs::remove_dir_all(&dir);
+    let _ = std::fs::remove_file(&cfg);
     match r {
         Err(_) => "PANIC".to_owned(),
         Ok(Err(_)) => "err".to_owned(),
         Ok(Ok(())) => {
             let mut items: Vec<String> = files
                 .iter()
-                .map(|(p, c)| {
-                    if with_content {
+                .map(|(p, c)| match content {
+                    Content::None => enc_str(p),
+                    Content::Raw => {
                         format!("{}={}", enc_str(p), c.iter().map(|b| b.to_string()).collect::<Vec<_>>().join(","))
-                    } else {
-                        enc_str(p)
                     }
+                    Content::Digits => match std::str::from_utf8(c).ok().and_then(|t| t.parse::<u32>().ok()) {
+                        Some(k) => format!("{}={}", enc_str(p), k),
+                        None => format!("{}=x{}", enc_str(p), enc_bytes(c)),
+                    },
                 })
                 .collect();
             items.sort();
-            if with_content {
-                format!("files:{}", enc_list(",", &items))
-            } else {
+            if content == Content::None {
                 format!("created:{}", enc_list(",", &items))
+            } else {
+                format!("files:{}", enc_list(",", &items))
             }
         }
     }
+}
+
+/// a YAML double-quoted scalar (the JSON string syntax is a subset of it)
+fn yaml_str(s: &str) -> String {
+    serde_json::to_string(s).unwrap()
+}
+
+/// load the configuration file, build the logger (not installed globally), log `records` records
+/// whose text is their number
+fn run_config(cfg: &Path, yaml: &str, records: u32) -> Result<(), String> {
+    std::fs::write(cfg, yaml).map_err(|e| e.to_string())?;
+    let config = load_config_file(cfg, Deserializers::default()).map_err(|e| e.to_string())?;
+    let logger = log4rs::Logger::new(config);
+    for k in 0..records {
+        log::Log::log(
+            &logger,
+            &log::Record::builder().level(log::Level::Info).target("c19").args(format_args!("{}", k)).build(),
+        );
+    }
+    log::Log::flush(&logger);
+    drop(logger);
+    Ok(())
 }
 
 pub fn exec(fields: &[&str]) -> String {
@@ -393,25 +509,53 @@ pub fn exec(fields: &[&str]) -> String {
         ("file", 3) => {
             let p = path.clone();
             in_scratch(
-                move || {
+                move |_| {
                     let a = FileAppender::builder().build(&p).map_err(|e| e.to_string())?;
                     drop(a);
                     Ok(())
                 },
-                false,
+                Content::None,
             )
         }
         ("rolling", 3) => {
             let p = path.clone();
             in_scratch(
-                move || {
+                move |_| {
                     let policy = CompoundPolicy::new(Box::new(SizeTrigger::new(1 << 30)), Box::new(DeleteRoller::new()));
                     let a = RollingFileAppender::builder().build(&p, Box::new(policy)).map_err(|e| e.to_string())?;
                     drop(a);
                     Ok(())
                 },
-                false,
+                Content::None,
             )
+        }
+        ("file-cfg", 3) => {
+            let yaml = format!(
+                "appenders:\n  out:\n    kind: file\n    path: {}\n    encoder:\n      pattern: \"{{m}}\"\nroot:\n  level: info\n  appenders: [out]\n",
+                yaml_str(&path)
+            );
+            in_scratch(move |cfg| run_config(cfg, &yaml, 1), Content::None)
+        }
+        ("rolling-cfg", 3) => {
+            let yaml = format!(
+                "appenders:\n  out:\n    kind: rolling_file\n    path: {}\n    encoder:\n      pattern: \"{{m}}\"\n    policy:\n      kind: compound\n      trigger:\n        kind: size\n        limit: 1 gb\n      roller:\n        kind: delete\nroot:\n  level: info\n  appenders: [out]\n",
+                yaml_str(&path)
+            );
+            in_scratch(move |cfg| run_config(cfg, &yaml, 1), Content::None)
+        }
+        ("roller-cfg", 6) => {
+            let nums: Vec<Option<u32>> = fields[3..6].iter().map(|s| s.parse().ok()).collect();
+            match (nums[0], nums[1], nums[2]) {
+                (Some(base), Some(count), Some(rolls)) if rolls < 200 => {
+                    // every record exceeds the size limit 0, so every record forces one roll
+                    let yaml = format!(
+                        "appenders:\n  out:\n    kind: rolling_file\n    path: \"cur.log\"\n    encoder:\n      pattern: \"{{m}}\"\n    policy:\n      kind: compound\n      trigger:\n        kind: size\n        limit: 0\n      roller:\n        kind: fixed_window\n        pattern: {}\n        base: {}\n        count: {}\nroot:\n  level: info\n  appenders: [out]\n",
+                        yaml_str(&path), base, count
+                    );
+                    in_scratch(move |cfg| run_config(cfg, &yaml, rolls), Content::Digits)
+                }
+                _ => "bad-case".to_owned(),
+            }
         }
         ("roller", 6) => {
             let nums: Vec<Option<u32>> = fields[3..6].iter().map(|s| s.parse().ok()).collect();
@@ -419,7 +563,7 @@ pub fn exec(fields: &[&str]) -> String {
                 (Some(base), Some(count), Some(rolls)) if rolls < 200 => {
                     let p = path.clone();
                     in_scratch(
-                        move || {
+                        move |_| {
                             let roller = FixedWindowRoller::builder().base(base).build(&p, count).map_err(|e| e.to_string())?;
                             for k in 0..rolls {
                                 std::fs::write("cur.log", [k as u8]).map_err(|e| e.to_string())?;
@@ -427,7 +571,7 @@ pub fn exec(fields: &[&str]) -> String {
                             }
                             Ok(())
                         },
-                        true,
+                        Content::Raw,
                     )
                 }
                 _ => "bad-case".to_owned(),
